@@ -1,6 +1,7 @@
 """C16 — every connection is accounted for exactly once with a truthful record."""
 import json
 
+import os
 from .. import gen as G, refcodec as rc
 from ..core import Violation
 from ..gen import Scenario, op, send, tag_header, TAG_XOR
@@ -309,12 +310,21 @@ def oracle(plan, out):
                 early = "early" if c["kind"] == "ok-early" else ("upstream-early" if c.get("banner") else "plain")
                 V.append(Violation(ID, "wrong-byte-count", "C16/wrong-byte-count/%s/%s" % (early, io),
                                    "%s: relayed %d bytes client->server and %d server->client, record says %s and %s" % (desc, c["c2s"], c["s2c"], cb, sb)))
-    # history is newest first and a suffix-free subset of the log
-    # (records are pushed when the connection object is dropped, which the GC notices once per second: only
-    # inversions of more than 2.5 s between terminal timestamps are judged)
-    times = [last_time(r) for r in hrecs if r.get("state") and r["state"][-1]["state"] in ("Terminated", "ErrorOccured")]
-    if any(a + 2500 < b for a, b in zip(times, times[1:])):
+    # history is newest first and holds the newest records of the log. The record's own terminal-state timestamp is the
+    # measure; on the unchanged tree drop order and terminal-state order coincide to the millisecond on the in-memory lane
+    # (tolerance 50 ms for implementations that release the record slightly later); on the kernel lane readiness is only
+    # noticed when the paused clock steps, so only inversions of more than 2.5 s are judged there.
+    tol = 2500 if meta["splice"] else 50
+    terminal = lambda r: bool(r.get("state")) and r["state"][-1]["state"] in ("Terminated", "ErrorOccured")
+    times = [last_time(r) for r in hrecs if terminal(r)]
+    if any(a + tol < b for a, b in zip(times, times[1:])):
         v("history-order", "history is not newest-first: terminal-state times %s" % times[:8])
+    if hrecs and len(hrecs) >= meta["hsize"] and times:
+        oldest_kept = min(times)
+        hset = set(hids)
+        newer_dropped = [r["id"] for r in log if terminal(r) and r["id"] not in hset and last_time(r) > oldest_kept + tol]
+        if newer_dropped:
+            v("history-keeps-older", "the bounded history dropped records %s although it keeps an older one (terminal-state time %d)" % (newer_dropped[:5], oldest_kept))
     logged = set(ids)
     for r in hrecs:
         if r["id"] not in logged:
